@@ -796,6 +796,32 @@ def rule_retry_shrink(ctx, cfg, F):
             R.violate("%s:estimate-written-directly" % f.path, "the estimate `%s` is assigned at %d sites in send (expected: initialisation only)" % (f.lname(E[0]), len(defs)), f.path, f.loc(defs[-1][0]) if defs else None, config=cfg)
         else:
             R.ok("estimate `%s` has a single direct definition (its initialisation)" % f.lname(E[0]), f.loc(defs[0][0]), cfg)
+    # what the give-up decision looks at inside the fragment loop is the size of the packet just refused, not the length of the whole message:
+    # with the message length the floor never applies and a few more refusals shrink the estimate below the header size (underflow in the fragment-size functions)
+    exs = Expr(f)
+    data_param = next((i for i in range(1, f.argc + 1) if f.local_ty(i) == "&[u8]"), None)
+    whole = ("call", "core::slice::len", (("param", data_param),))
+    loopb = set()
+    for h in f.loop_headers():
+        loopb |= f.natural_loop(h)
+    wrong = None
+    for b, t in dcalls:
+        if b in loopb and len(t["args"]) > 1 and expr_strip_blocks(exs.of_operand(t["args"][1])) == whole:
+            wrong = b
+    for b in sorted(loopb):
+        if f.term(b)["t"] != "switch":
+            continue
+        for s_ in f.succ(b):
+            for lab in edge_label(f, b, s_):
+                if lab["kind"] == "cmp" and lab["op"] in ("Gt", "Ge", "Lt", "Le"):
+                    for x, c in ((lab["a"], lab["b"]), (lab["b"], lab["a"])):
+                        if (op_const(c) or 0) >= 256 and expr_strip_blocks(exs.of_operand(x)) == whole:
+                            wrong = b
+    if wrong is not None:
+        R.violate("%s:retry-size-is-whole-message" % f.path, "inside the fragment loop the retry decision is given len(data), not the size of the fragment that was refused: the lower bound on shrinking never applies there",
+                  f.path, f.loc(wrong), config=cfg)
+    else:
+        R.ok("the fragment loop's retry decision is taken on the size of the refused fragment", f.loc(0), cfg)
     bodies = []     # (function, predicate "this deref-store writes the estimate")
     for b, t in dcalls:
         g = F.fns.get(t.get("resolved") or t.get("callee")) or getattr(F, "all_fns", {}).get(t.get("resolved") or t.get("callee"))
